@@ -241,6 +241,7 @@ class C09(FMonitor):
     def __init__(self, led):
         self.seen_cp = 0
         self.seen_da = 0
+        self.seen_dr = 0
 
     def on_step(self, led):
         # an item is dropped only if no out-edge asked on its behalf in that instant had room
@@ -251,6 +252,15 @@ class C09(FMonitor):
                           % (nid, getattr(it, "id", it), t, eid, room, ans), node=tname(led.nodes[nid]), answered=ans)
                     break
         self.seen_da = len(led.discard_asks)
+        # under FIRST_AVAILABLE *any* out-edge with room must take the item: at the moment of the drop no out-edge (asked or not)
+        # may have a free unreserved place
+        for (t, nid, it, rooms) in led.discard_rooms[self.seen_dr:]:
+            for (eid, room) in rooms:
+                if room > 0:
+                    led.V("C09", "first-available-tries-every-edge", "%s (FIRST_AVAILABLE) dropped %s at %s although out-edge %s had %d free unreserved place(s) at that moment"
+                          % (nid, getattr(it, "id", it), t, eid, room), node=tname(led.nodes[nid]))
+                    break
+        self.seen_dr = len(led.discard_rooms)
         for nid, n in led.nodes.items():
             if getattr(n, "blocking", None) is True and n.stats.get("num_item_discarded", 0) != 0:
                 led.V("C09", "blocking-never-discards", "blocking %s %s reports %d discarded item(s)" % (tname(n), nid, n.stats["num_item_discarded"]),
